@@ -106,6 +106,41 @@ def find_guard(body, targets, fail_rx, exempt_rx=None, extra=None):
     return None, None, '; '.join(reasons) or 'no switch with a predicate of this class'
 
 
+def no_failure_after_canonical(ctx, prog, rid, names):
+    """After the canonical (cold-tier) mutation of a request succeeded, no Err return is reachable (shared: C03.R7 for the four engine mutators, C14.R5 for
+    bulk_load_cold_tier, whose caller releases the WHOLE quota reservation on Err). Returns the number of canonical calls seen."""
+    CANON7 = r'HnswBackend::(insert|delete|batch_delete|update_metadata)$'
+    n7 = 0
+    for name in names:
+        f = ctx.body(rid, name)
+        if f is None:
+            continue
+        o7 = flow.Origin(f)
+        errs7 = flow.err_blocks(f)
+        cs7 = [c for c in f.calls if c.callee and re.search(CANON7, c.callee)]
+        if not cs7:
+            ctx.missing(rid, '%s: canonical cold-tier mutation' % name)
+            continue
+        for k7, c in enumerate(cs7):
+            n7 += 1
+            se = flow.success_edges(f, c)
+            r7 = (f.reach([e[1] for e in se]) | set(e[1] for e in se)) if se else set()
+            bad7 = []
+            for e_ in sorted(r7 & errs7):
+                ce = controlling_edge(f, e_, o7)
+                if name == 'TieredEngine::insert' and ce and re.match(r'^variant\(HnswBackend::current_coherence_token\(.*\)\) = (None|Break)$', ce[2]):
+                    ctx.exception(rid, 'TieredEngine::insert: no canonical token after a successful insert',
+                                  'only a concurrent delete of the same id can remove the token between the two calls; the final state then equals "insert failed, delete succeeded"')
+                    continue
+                bad7.append(e_)
+            again = [x for x in cs7 if x.bb in r7]
+            ctx.inst(rid, f.short, 'no failure after the canonical mutation #%d succeeded' % k7, bool(se) and not bad7,
+                     ('Err return at %s is reachable after %s succeeded%s' % (f.loc_of(bad7[0]), flow.short(c.callee),
+                      ' — the canonical call is executed again for the same request (a later slice can fail after earlier slices are durable)' if again else '')) if bad7
+                     else '%s: every return after its success edge is Ok' % flow.short(c.callee))
+    return n7
+
+
 def rejection_classes(ctx, prog, rid, eff):
     """every rejection class of the index is refused before the log append (C03.R1; shared with C15.R2: an item refused after the
     append is answered with an error but leaves a compensating Delete that erases the previous version on replay)."""
@@ -373,35 +408,7 @@ def run(ctx, prog):
     ctx.rule('C03.R7', 'all-or-nothing at the engine: in TieredEngine::{insert, delete, batch_delete, update_metadata}, once the canonical (cold-tier) mutation of '
                        'the request has succeeded, no path reaches an Err return — in particular the canonical call is not repeated for a further slice of the same '
                        'request, whose failure would report "failed" for a request that is partly durable')
-    CANON7 = r'HnswBackend::(insert|delete|batch_delete|update_metadata)$'
-    n7 = 0
-    for name in ('TieredEngine::insert', 'TieredEngine::delete', 'TieredEngine::batch_delete', 'TieredEngine::update_metadata'):
-        f = ctx.body('C03.R7', name)
-        if f is None:
-            continue
-        o7 = flow.Origin(f)
-        errs7 = flow.err_blocks(f)
-        cs7 = [c for c in f.calls if c.callee and re.search(CANON7, c.callee)]
-        if not cs7:
-            ctx.missing('C03.R7', '%s: canonical cold-tier mutation' % name)
-            continue
-        for k7, c in enumerate(cs7):
-            n7 += 1
-            se = flow.success_edges(f, c)
-            r7 = (f.reach([e[1] for e in se]) | set(e[1] for e in se)) if se else set()
-            bad7 = []
-            for e_ in sorted(r7 & errs7):
-                ce = controlling_edge(f, e_, o7)
-                if name == 'TieredEngine::insert' and ce and re.match(r'^variant\(HnswBackend::current_coherence_token\(.*\)\) = (None|Break)$', ce[2]):
-                    ctx.exception('C03.R7', 'TieredEngine::insert: no canonical token after a successful insert',
-                                  'only a concurrent delete of the same id can remove the token between the two calls; the final state then equals "insert failed, delete succeeded"')
-                    continue
-                bad7.append(e_)
-            again = [x for x in cs7 if x.bb in r7]
-            ctx.inst('C03.R7', f.short, 'no failure after the canonical mutation #%d succeeded' % k7, bool(se) and not bad7,
-                     ('Err return at %s is reachable after %s succeeded%s' % (f.loc_of(bad7[0]), flow.short(c.callee),
-                      ' — the canonical call is executed again for the same request (a later slice can fail after earlier slices are durable)' if again else '')) if bad7
-                     else '%s: every return after its success edge is Ok' % flow.short(c.callee))
+    n7 = no_failure_after_canonical(ctx, prog, 'C03.R7', ('TieredEngine::insert', 'TieredEngine::delete', 'TieredEngine::batch_delete', 'TieredEngine::update_metadata'))
     ctx.floor('C03.R7', 'canonical mutation calls in the four engine mutators', n7, 4, 'one per mutator')
 
     # ------------------------------------------------------------------ R5 single funnel
